@@ -178,7 +178,7 @@ prop("C19", "exploration",
       "higher-priority one; within a group the files go in the tag's order; non-trivial = files under at least two tags",
       "directory names contain no dot, so that matching the tag pattern against the name (statement) and against the group (code) agree; a non-http method "
       "is only given to a tag that overlaps no other pattern tag on the generated names; explicit zero priorities are not generated (see the finding)",
-      "real time: a one-shot sender that does not exit within 90 s makes the case inconclusive (skipped), not a violation (that is C16's subject)"])
+      "real time: a one-shot sender that does not exit within 45 s makes the case inconclusive (skipped), not a violation (that is C16's subject)"])
 
 prop("C17", "exploration",
      "generated directory trees (depth <= 4, hidden files and directories, .lck files, .disabled at root or below, empty files, absolute symlinks to files "
@@ -236,8 +236,15 @@ prop("C08", "fault_enumeration",
      "acknowledged part is transmitted again unless a failed/none verdict or a flip intervened; nothing is abandoned (delivered after the failures stop); "
      "non-trivial = a partial/cut/lost-answer failure on a multi-part file",
      [dict(pkg="stagex", test="TestC08Sim", world="W1", quick=1200, thorough=40000, per_proc=60, shrink_runs=150,
-           required_classes=["xfault-2", "xfault-3", "xfault-4", "multi-part-file"])],
-     SIM_ASSUME + ["failure positions are drawn, not exhaustively enumerated per scenario; the X-STS-PartCount header handling itself is in the wire checks"])
+           required_classes=["xfault-2", "xfault-3", "xfault-4", "multi-part-file"]),
+      dict(pkg="wirex", test="TestC08Wire", world="W3", needs_sts_binary=True, quick=96, thorough=3000, shards=16, shrinktime="60s", timeout=1500, shrink_runs=12,
+           required_classes=["wire-fault-cut", "wire-fault-lost", "wire-fault-refuse", "recovery-request-refused", "fault-on-multi-part-request"])],
+     SIM_ASSUME + ["failure positions are drawn, not exhaustively enumerated per scenario",
+                   "wire unit (TestC08Wire): the real binary as one-shot sender (its own HTTP client: 206 / X-STS-PartCount, the recovery request) and as receiver, "
+                   "with the harness as a proxy that refuses the n-th data / recovery / poll request, loses its answer after the receiver processed it, or lets the "
+                   "receiver see the body end at a drawn byte (the receiver's partial-content answer is passed on); 1-6 files, 1-3 threads, 2-30 requests; oracle: every "
+                   "file arrives byte-identical, no part the sender was told is on record (200, 206 count, recovery answer) appears in a later data request, one "
+                   "sent-log record per file; real time, no validation failures injected"])
 
 prop("C07", "fault_enumeration",
      "W1: 1-6 files, 1-4 threads (several payloads in flight, served in a drawn order so that parts land out of order and with gaps), optional light transport "
@@ -402,10 +409,10 @@ MANIFEST_TEXT["C03"] = dict(
          "file delivered, confirmed and marked done.",
     note=SIM_NOTE + " Liveness only in the bounded reading.")
 MANIFEST_TEXT["C08"] = dict(
-    technique="fault injection at drawn positions of drawn kinds in a deterministic simulation; invariant over the wire history",
+    technique="fault injection at drawn positions of drawn kinds in a deterministic simulation, and by a failing proxy between the real binaries; invariant over the wire history",
     text="Every data request may fail at a drawn part index in one of five ways; the wire history must show that only acknowledged parts count as sent, "
          "only the remainder is sent again, nothing is abandoned, and Sent() is logged only for fully acknowledged versions.",
-    note=SIM_NOTE)
+    note=SIM_NOTE + " The second unit runs the real sender binary against the real receiver binary through a proxy that refuses, cuts or loses requests.")
 
 MANIFEST_TEXT["C07"] = dict(
     technique="fault injection: sender killed at a drawn index of its externally visible actions in a deterministic simulation; end-state and economy oracle over the wire history",
